@@ -921,7 +921,17 @@ func c20Units(tier string) []hx.Unit {
 				e.done = true
 				mc.Sleep(int64(30 * time.Second))
 			}
-			u.Check = func(r *mc.Result) mc.Verdict { return c20LeakCheck("strategy/"+stg.name, c07Desc(e), e.done, r) }
+			u.Check = func(r *mc.Result) mc.Verdict {
+				v := c20LeakCheck("strategy/"+stg.name, c07Desc(e), e.done, r)
+				if v.Violation == "" && e.pending > 0 {
+					// half a minute after the call returned (every timeout is long over) a request to a silent node is
+					// still running: the strategy never ended it, and with a long-lived caller it never will
+					v.Outcome = "strategy/" + stg.name + " leaked"
+					v.Violation = fmt.Sprintf("strategy/%s %s: %d request(s) to silent nodes are still running long after the call returned and all timeouts passed (the request context was never ended)", stg.name, c07Desc(e), e.pending)
+					v.Key = "C20/leak/strategy/" + stg.name + "/request-never-ended"
+				}
+				return v
+			}
 			units = append(units, u)
 		}
 	}
